@@ -51,6 +51,10 @@ pub(crate) enum SectionKind<'data> {
 pub(crate) struct SectionRules<'data> {
     /// Rules by the hash of the first 4 bytes of the name.
     rules: HashTable<SectionRule<'data>>,
+
+    /// Rules that don't start with at least 4 literal bytes, so cannot be looked up by hash. These
+    /// are checked in order if no hashed rule matches.
+    unhashed_rules: Vec<SectionRule<'data>>,
 }
 
 /// Determines how a section name pattern is matched against input section names.
@@ -72,7 +76,15 @@ impl<'data> SectionNameMatcher<'data> {
     fn prefix_bytes(&self) -> &[u8] {
         match self {
             Self::Exact(n) => n.as_ref(),
-            Self::Prefix(n) | Self::Glob(n, _) => n,
+            Self::Prefix(n) => n,
+            Self::Glob(pattern, _) => {
+                // Only the bytes before the first glob metacharacter are literal.
+                let literal_len = pattern
+                    .iter()
+                    .position(|b| b"*?[\\".contains(b))
+                    .unwrap_or(pattern.len());
+                &pattern[..literal_len]
+            }
         }
     }
 }
@@ -434,10 +446,13 @@ impl<'data> SectionRules<'data> {
     fn from_rules(rules: &[SectionRule<'data>]) -> Self {
         let mut map = SectionRules {
             rules: HashTable::with_capacity(rules.len() * RULE_TABLE_CAPACITY_MULTIPLIER),
+            unhashed_rules: Vec::new(),
         };
         for rule in rules {
-            let hash = section_name_prefix_hash(rule.name_matcher.prefix_bytes())
-                .expect("Prefixes of length less than 4 not yet supported");
+            let Some(hash) = section_name_prefix_hash(rule.name_matcher.prefix_bytes()) else {
+                map.unhashed_rules.push(rule.clone());
+                continue;
+            };
 
             map.rules.insert_unique(hash, rule.clone(), |existing| {
                 section_name_prefix_hash(existing.name_matcher.prefix_bytes()).unwrap_or(0)
@@ -462,6 +477,14 @@ impl<'data> SectionRules<'data> {
             && let Some(rule) = self
                 .rules
                 .find(hash, |rule| rule.matches(section_name, file_name))
+        {
+            return rule.outcome;
+        }
+
+        if let Some(rule) = self
+            .unhashed_rules
+            .iter()
+            .find(|rule| rule.matches(section_name, file_name))
         {
             return rule.outcome;
         }
